@@ -4,7 +4,7 @@
    nat stay the extracted Coq datatypes. *)
 Require Import ExtrOcamlBasic.
 Require Import SquidV.Bytes SquidV.CharSetModel SquidV.TokModel.
-Extraction "model.ml"
+Extraction "m_tok.ml"
   mem_tbl lenN takeN dropN
   cs_mem cs_plus cs_minus cs_complement cs_add cs_remove cs_addRange cs_of_string empty_storage
   tok_prefix tok_suffix tok_skipAll tok_skipOne tok_skipChar tok_skip tok_skipSuffix
